@@ -1869,7 +1869,7 @@ class MacroExpander:
                             )
                             pre_expanded.append((arg, arg_expansion))
                         else:
-                            pre_expanded.append((arg,))
+                            pre_expanded.append((arg, arg))
                     # Proper expand
                     replacement = macro_lookup.replace(pre_expanded)
                     if isinstance(replacement, list) and len(replacement) > 0:
